@@ -170,6 +170,8 @@ func evalC19Shutdown(c c19Shutdown) *Failure {
 type c19Unread struct {
 	Cmd    []string `json:"cmd"`
 	Before int      `json:"before"`
+	// SlowCloseMS: closing the transport takes this long (the client is idle and reads; Cmd is not sent)
+	SlowCloseMS int `json:"slow_close_ms,omitempty"`
 }
 
 func evalC19Unread(c c19Unread) *Failure {
@@ -190,16 +192,24 @@ func evalC19Unread(c c19Unread) *Failure {
 			return stallFailure("c19", what)
 		}
 	}
-	m.Conns[0].BlockWrites = true
-	m.Conns[0].Feed(resp.Cmd(c.Cmd...).Bytes())
-	if !m.Conns[0].WaitWriteBlocked(serveTimeout()) {
-		srv.Stop()
-		return failf("harness|not-blocked", "%s: the server did not start writing a reply", what)
+	if c.SlowCloseMS > 0 {
+		what = fmt.Sprintf("an idle connection whose transport takes %d ms to close; then Stop", c.SlowCloseMS)
+		m.Conns[0].CloseDelay = time.Duration(c.SlowCloseMS) * time.Millisecond
+	} else {
+		m.Conns[0].BlockWrites = true
+		m.Conns[0].Feed(resp.Cmd(c.Cmd...).Bytes())
+		if !m.Conns[0].WaitWriteBlocked(serveTimeout()) {
+			srv.Stop()
+			return failf("harness|not-blocked", "%s: the server did not start writing a reply", what)
+		}
 	}
 	stopped := make(chan error, 1)
 	go func() { stopped <- srv.Stop() }()
 	select {
-	case <-stopped:
+	case err := <-stopped:
+		if err != nil && c.SlowCloseMS > 0 {
+			return failf("c19|stop-error", "%s: Stop returned %v", what, err)
+		}
 	case <-time.After(20 * time.Second):
 		m.Conns[0].UnblockWrites()
 		return failf("c19|stop-hangs", "%s: Stop did not return within 20s", what)
@@ -219,7 +229,23 @@ func evalC19Unread(c c19Unread) *Failure {
 	if n := len(srv.Conns()); n != 0 {
 		return failf("c19|registry-entry-left|reply-unread", "%s: %d connections are still registered", what, n)
 	}
-	return nil
+	// nothing of the sweep is left behind either
+	deadline = time.Now().Add(time.Duration(c.SlowCloseMS)*time.Millisecond + 5*time.Second)
+	for {
+		left := ""
+		for _, g := range strings.Split(connsim.Stacks(), "\n\n") {
+			if strings.Contains(g, "go-redis/redis.(*ConnManager)") {
+				left = g
+			}
+		}
+		if left == "" {
+			return nil
+		}
+		if time.Now().After(deadline) {
+			return failf("c19|goroutine-leak|sweep", "%s: a goroutine of the connection sweep is still there after Stop returned and the connection was closed:\n%s", what, firstLines(left, 12))
+		}
+		time.Sleep(5 * time.Millisecond)
+	}
 }
 
 // (2) real sockets: churn plans
@@ -670,6 +696,9 @@ func TestC19(t *testing.T) {
 	}
 
 	if h.Shard == 0 {
+		slow := c19Unread{SlowCloseMS: 2600}
+		h.Col.Case(true, []byte(fmt.Sprint("slowclose", slow)), "slow-close-at-stop")
+		h.Report("c19.unread", slow, evalC19Unread(slow))
 		for _, cmd := range [][]string{{"QUIT"}, {"PING"}, {"GET", "k"}, {"NOSUCH"}, {"ECHO", strings.Repeat("x", 70000)}} {
 			for _, before := range []int{0, 2} {
 				c := c19Unread{Cmd: cmd, Before: before}
